@@ -557,9 +557,15 @@ func (g *CallGraph) analyse(f *ssa.Function) bool {
 			}
 			callees, known := g.calleesOf(cc)
 			if known {
+				// a function literal called where it is made (or through the local it is bound to):
+				// its free variables are the bindings of that literal
+				var binds []ssa.Value
+				if mc, ok := cc.Value.(*ssa.MakeClosure); ok && !cc.IsInvoke() {
+					binds = mc.Bindings
+				}
 				for _, cal := range callees {
 					sum.Callees[cal] = true
-					g.propagate(f, sum, g.Sum[cal], callArgs(cc), nil, ci.Pos())
+					g.propagate(f, sum, g.Sum[cal], callArgs(cc), binds, ci.Pos())
 				}
 				continue
 			}
